@@ -1,6 +1,12 @@
-"""C10 (generation half): the public API never panics for constructible parameters."""
+"""C10: the public API never panics - generation half for constructible parameters (engine K), parsing half behind the parser library (engine M)."""
+import mir_check
 from vcore import Query
 from shapes import S1
+
+
+def run_mir(tier, seed):
+    import nopanic
+    return mir_check.run_obligations([nopanic.ob_parse_no_panic], features="x509-parser")
 
 F_STR = ["rcgen::CrlDistributionPoint::write_der", "rcgen::CrlIssuingDistributionPoint::write_der", "rcgen::certificate::write_general_subtrees",
          "yasna::DERWriter::write_ia5_string"]
@@ -35,11 +41,16 @@ def spec(tier, seed):
                     functions=["rcgen::date_time_ymd"], shape="every possible calendar date in years -9999..=9999 (impossible dates are the documented panic)"))
     qs.append(Query(name="c10_acme", body="    c10::acme_identifier();", unwind=40, family="acme_identifier", field_sens=64,
                     functions=["rcgen::CustomExtension::new_acme_identifier"], shape="every 32-byte digest (other lengths are the documented panic)"))
-    return {"queries": qs, "exhaustive": False,
-            "bounds": "one sink per publicly typed free-form field: strings of one arbitrary character (UTF-8 length 1..4), OIDs of 0..4 symbolic u64 arcs, "
+    return {"queries": qs, "mir": run_mir, "exhaustive": False,
+            "bounds": "parsing half (engine M): no panic site (diverging call, unwrap / expect on a possible Err / None, failing bounds / overflow check, "
+                      "out-of-range slice index) is reachable in CertificateSigningRequestParams::from_der, CertificateParams::from_ca_cert_der and its "
+                      "converters, DistinguishedName::from_name and the five PEM loaders for any value the parser library can return (bounds of the C06 / "
+                      "C17 / C03 / C14 obligations). Generation half (engine K): one sink per publicly typed free-form field: strings of one arbitrary character (UTF-8 length 1..4), OIDs of 0..4 symbolic u64 arcs, "
                       "times over the whole range of OffsetDateTime; the string constructors are covered by C13, whole-artefact generation for the shapes "
                       "of C02/C07/C08 by those queries (a panic fails them)",
-            "outside": "the parsing half of C10 (from_ca_cert_der/pem, CSR from_der/pem, KeyPair::try_from/from_pem, SubjectPublicKeyInfo::from_der/pem): "
-                       "x509-parser, ring and PEM text are not encodable; non-termination; otherName SAN and Attribute OIDs (same yasna sink as the "
+            "outside": "panics and non-termination *inside* x509-parser, ring, pem and time on untrusted bytes (environment of the parsing-half obligation; "
+                       "the native battery runs all parse entry points on ~4000 systematic mutations of valid inputs on every run, which is validation, not "
+                       "a solver verdict); SanType::try_from_general and ip_addr_from_octets (environment there; the latter is C17's Kani unit); otherName SAN and Attribute OIDs (same yasna sink as the "
                        "extension OID, but not separately executed); CidrSubnet::from_str (std IpAddr parser)",
-            "assumptions": ["S1", "Kani's panic/overflow/bounds checks are the oracle"]}
+            "assumptions": ["S1", "Kani's panic/overflow/bounds checks are the oracle",
+                            "engine M: environment contract 'an RDN set handed out by x509-parser has at least one attribute' (x509-parser parses RDNs with many1)"]}
